@@ -557,3 +557,11 @@ func init() {
 		Edit{"types/encoding.go", "\t\t\tfcr.Resolution = &sp\n", "\t\t\tresolution = &sp\n"},
 		Edit{"types/encoding.go", "\t\tfcr.Resolution.(EncoderTo).EncodeTo(e)\n", "\t\tresolution.(EncoderTo).EncodeTo(e)\n"})
 }
+
+func init() {
+	// ---- C06 (proof update order) ----
+	mut("C06", "revert looks up reverted leaves before truncating the proof", true, "proof-update-order|consensus.(*elementRevertUpdate).updateElementProof",
+		Edit{"consensus/merkle.go", "\tif mh := mergeHeight(eru.numLeaves, e.LeafIndex); mh <= len(e.MerkleProof) {\n\t\te.MerkleProof = e.MerkleProof[:mh-1]\n\t}\n\tupdateProof(e, &eru.updated)\n", "\tupdateProof(e, &eru.updated)\n\tif mh := mergeHeight(eru.numLeaves, e.LeafIndex); mh <= len(e.MerkleProof) {\n\t\te.MerkleProof = e.MerkleProof[:mh-1]\n\t}\n"})
+	mut("C06", "apply extends the proof before applying the updated leaves", true, "proof-update-order|consensus.(*elementApplyUpdate).updateElementProof",
+		Edit{"consensus/merkle.go", "\tupdateProof(e, &eau.updated)\n\tif mh := mergeHeight(eau.numLeaves, e.LeafIndex); mh != len(e.MerkleProof) {\n\t\te.MerkleProof = append(e.MerkleProof, eau.treeGrowth[len(e.MerkleProof)]...)\n\t}\n", "\tif mh := mergeHeight(eau.numLeaves, e.LeafIndex); mh != len(e.MerkleProof) {\n\t\te.MerkleProof = append(e.MerkleProof, eau.treeGrowth[len(e.MerkleProof)]...)\n\t}\n\tupdateProof(e, &eau.updated)\n"})
+}
